@@ -54,6 +54,16 @@ Proof.
   - apply IH; [assumption|]. intros x Hx1 Hx2. apply (Hd x); [right; exact Hx1|exact Hx2].
 Qed.
 
+Lemma NoDup_app_r {A} (l1 l2 : list A) : NoDup (l1 ++ l2) -> NoDup l2.
+Proof. induction l1 as [|a l1 IH]; simpl; intros H; [exact H|]. inversion H; subst. apply IH. assumption. Qed.
+
+Lemma NoDup_app_l {A} (l1 l2 : list A) : NoDup (l1 ++ l2) -> NoDup l1.
+Proof.
+  induction l1 as [|a l1 IH]; simpl; intros H; [constructor|]. inversion H; subst. constructor.
+  - intros Hin. apply H2. apply in_or_app. left. exact Hin.
+  - apply IH. assumption.
+Qed.
+
 (** measure of a DFS: how many nodes of [U] are not yet marked *)
 Definition unmarked (U marked : list nat) : nat :=
   length (filter (fun x => negb (mem x marked)) U).
@@ -544,4 +554,385 @@ Proof.
   destruct (add_loop_backward (build_edges cs) n He n 0 []) as [added' Hl]; [lia|simpl; intros; lia|].
   change (seq 0 0) with (@nil nat) in Hl. rewrite Hl. f_equal.
   pose proof (flat_map_pick_seq [] cs) as Hf. simpl in Hf. exact Hf.
+Qed.
+
+(** * SortChanges when the dependsOn edges are acyclic (witnessed by a rank), in any direction *)
+
+Lemma flat_map_split {A B} (h : A -> list B) : forall l pre' y post',
+  flat_map h l = pre' ++ y :: post' ->
+  exists pre x post p1 p2, l = pre ++ x :: post /\ h x = p1 ++ y :: p2 /\
+    pre' = flat_map h pre ++ p1 /\ post' = p2 ++ flat_map h post.
+Proof.
+  induction l as [|x l IH]; intros pre' y post' E; simpl in E.
+  - destruct pre'; discriminate.
+  - symmetry in E. apply app_eq_app in E. destruct E as [l0 [[E1 E2]|[E1 E2]]].
+    + destruct (IH l0 y post' E2) as [pre [x0 [post [p1 [p2 [H1 [H2 [H3 H4]]]]]]]].
+      exists (x :: pre), x0, post, p1, p2. split; [rewrite H1; reflexivity|]. split; [exact H2|].
+      split; [|exact H4]. simpl. rewrite <- app_assoc, <- H3. exact E1.
+    + destruct l0 as [|z l0]; simpl in E2.
+      * rewrite app_nil_r in E1. subst pre'.
+        destruct (IH [] y post' (eq_sym E2)) as [pre [x0 [post [p1 [p2 [H1 [H2 [H3 H4]]]]]]]].
+        exists (x :: pre), x0, post, p1, p2. split; [rewrite H1; reflexivity|]. split; [exact H2|].
+        split; [|exact H4]. simpl. rewrite <- app_assoc, <- H3, app_nil_r. reflexivity.
+      * inversion E2; subst. exists [], x, l, pre', l0. repeat split; assumption.
+Qed.
+
+Lemma add_list_app add1 ds1 ds2 st :
+  add_list add1 (ds1 ++ ds2) st =
+  match add_list add1 ds1 st with None => None | Some st1 => add_list add1 ds2 st1 end.
+Proof.
+  revert st. induction ds1 as [|d ds1 IH]; intros st; simpl; [reflexivity|].
+  destruct (mem d (fst st)); [apply IH|]. destruct (add1 d st); [apply IH|reflexivity].
+Qed.
+
+Section Respect.
+  Variable edges : list (list nat).
+  Variable rho : nat -> nat.
+  Hypothesis Hrho : forall i j, In j (nth i edges []) -> rho j < rho i.
+
+  (* every node stands after all the nodes it has an edge to *)
+  Definition ordered (pl : list nat) : Prop :=
+    forall p1 i p2, pl = p1 ++ i :: p2 -> incl (nth i edges []) p1.
+
+  Lemma ordered_snoc pl c : ordered pl -> incl (nth c edges []) pl -> ordered (pl ++ [c]).
+  Proof.
+    intros Ho Hi p1 i p2 E.
+    destruct p2 as [|b p2] using rev_ind.
+    - apply app_inj_tail in E. destruct E as [E1 E2]. subst. exact Hi.
+    - clear IHp2. rewrite app_comm_cons, app_assoc in E. apply app_inj_tail in E. destruct E as [E1 _].
+      apply (Ho p1 i p2 E1).
+  Qed.
+
+  (* state invariant; in progress = added but not yet planned *)
+  Definition rinv (c : nat) (st : dstate) : Prop :=
+    ordered (snd st) /\ incl (snd st) (fst st) /\
+    (forall y, In y (fst st) -> ~ In y (snd st) -> rho c < rho y).
+
+  Definition rpost (st st' : dstate) : Prop :=
+    ordered (snd st') /\ incl (snd st') (fst st') /\ incl (fst st) (fst st') /\ incl (snd st) (snd st') /\
+    (forall y, In y (fst st') -> ~ In y (snd st') -> In y (fst st) /\ ~ In y (snd st)).
+
+  Lemma add_list_resp add1 ds :
+    (forall d st st', In d ds -> add1 d st = Some st' -> rinv d st -> rpost st st' /\ In d (snd st')) ->
+    forall st st', add_list add1 ds st = Some st' ->
+      ordered (snd st) -> incl (snd st) (fst st) ->
+      (forall d y, In d ds -> In y (fst st) -> ~ In y (snd st) -> rho d < rho y) ->
+      rpost st st' /\ incl ds (snd st').
+  Proof.
+    induction ds as [|d ds IH]; intros Hadd st st' H Ho Hpa Hin; simpl in H.
+    - inversion H; subst. split; [|intros x []].
+      split; [exact Ho|]. split; [exact Hpa|]. split; [intros x Hx; exact Hx|]. split; [intros x Hx; exact Hx|].
+      intros y H1 H2. split; assumption.
+    - assert (Hadd' : forall d0 st0 st0', In d0 ds -> add1 d0 st0 = Some st0' -> rinv d0 st0 ->
+                rpost st0 st0' /\ In d0 (snd st0')).
+      { intros d0 st0 st0' Hd0. apply Hadd. right. exact Hd0. }
+      destruct (mem d (fst st)) eqn:Em.
+      + apply mem_In in Em.
+        assert (Hdp : In d (snd st)).
+        { destruct (in_dec Nat.eq_dec d (snd st)) as [Hy|Hn]; [exact Hy|exfalso].
+          pose proof (Hin d d (or_introl eq_refl) Em Hn). lia. }
+        destruct (IH Hadd' st st' H Ho Hpa) as [Hp Hi].
+        { intros d0 y Hd0. apply Hin. right. exact Hd0. }
+        split; [exact Hp|]. intros x [<-|Hx]; [|apply Hi; exact Hx].
+        destruct Hp as [_ [_ [_ [Hs _]]]]. apply Hs. exact Hdp.
+      + destruct (add1 d st) as [st1|] eqn:E1; [|discriminate].
+        assert (Hri : rinv d st).
+        { split; [exact Ho|]. split; [exact Hpa|]. intros y. apply Hin. left. reflexivity. }
+        destruct (Hadd d st st1 (or_introl eq_refl) E1 Hri) as [[P1 [P2 [P3 [P4 P5]]]] Hd1].
+        destruct (IH Hadd' st1 st' H P1 P2) as [[Q1 [Q2 [Q3 [Q4 Q5]]]] Hi].
+        { intros d0 y Hd0 Hy1 Hy2. destruct (P5 y Hy1 Hy2) as [Ha Hb]. apply (Hin d0 y (or_intror Hd0) Ha Hb). }
+        split.
+        * split; [exact Q1|]. split; [exact Q2|]. split; [intros x Hx; apply Q3; apply P3; exact Hx|].
+          split; [intros x Hx; apply Q4; apply P4; exact Hx|].
+          intros y Hy1 Hy2. destruct (Q5 y Hy1 Hy2) as [Ha Hb]. apply (P5 y Ha Hb).
+        * intros x [<-|Hx]; [apply Q4; exact Hd1|apply Hi; exact Hx].
+  Qed.
+
+  Lemma add_resp fuel : forall c st st',
+    add edges fuel c st = Some st' -> rinv c st -> rpost st st' /\ In c (snd st').
+  Proof.
+    induction fuel as [|f IH]; intros c st st' H [Ho [Hpa Hin]]; [discriminate|].
+    rewrite add_S in H. destruct (mem c (fst st)) eqn:Em.
+    - inversion H; subst st'. apply mem_In in Em.
+      assert (Hcp : In c (snd st)).
+      { destruct (in_dec Nat.eq_dec c (snd st)) as [Hy|Hn]; [exact Hy|exfalso].
+        pose proof (Hin c Em Hn). lia. }
+      split; [|exact Hcp].
+      split; [exact Ho|]. split; [exact Hpa|]. split; [intros x Hx; exact Hx|]. split; [intros x Hx; exact Hx|].
+      intros y H1 H2. split; assumption.
+    - apply mem_false in Em.
+      destruct (add_list (add edges f) (nth c edges []) (c :: fst st, snd st)) as [[added planned]|] eqn:El; [|discriminate].
+      inversion H; subst st'. clear H.
+      assert (Hcnp : ~ In c (snd st)) by (intros Hc; apply Em; apply Hpa; exact Hc).
+      destruct (add_list_resp (add edges f) (nth c edges [])
+                  (fun d st0 st0' _ Hs Hr => IH d st0 st0' Hs Hr)
+                  (c :: fst st, snd st) (added, planned) El) as [[P1 [P2 [P3 [P4 P5]]]] Hi].
+      + exact Ho.
+      + simpl. intros x Hx. right. apply Hpa. exact Hx.
+      + simpl. intros d y Hd [<-|Hy] Hny; [apply Hrho; exact Hd|].
+        pose proof (Hrho c d Hd). pose proof (Hin y Hy Hny). lia.
+      + simpl in *. split; [|apply in_or_app; right; left; reflexivity].
+        split; [apply ordered_snoc; assumption|].
+        split.
+        { intros x Hx. apply in_app_or in Hx. destruct Hx as [Hx|[<-|[]]]; [apply P2; exact Hx|].
+          apply P3. left. reflexivity. }
+        split; [intros x Hx; apply P3; right; exact Hx|].
+        split; [intros x Hx; apply in_or_app; left; apply P4; exact Hx|].
+        intros y Hy1 Hy2.
+        assert (Hny : ~ In y planned) by (intros Hp; apply Hy2; apply in_or_app; left; exact Hp).
+        destruct (P5 y Hy1 Hny) as [[<-|Ha] Hb].
+        * exfalso. apply Hy2. apply in_or_app. right. left. reflexivity.
+        * split; assumption.
+  Qed.
+
+  (* a set of nodes closed under the edges: the search started inside never leaves it *)
+  Variable Q : nat -> Prop.
+  Hypothesis HQ : forall i j, Q i -> In j (nth i edges []) -> Q j.
+
+  Lemma add_list_closed add1 ds :
+    (forall d st st', In d ds -> add1 d st = Some st' -> forall x, In x (snd st') -> In x (snd st) \/ Q x) ->
+    forall st st', add_list add1 ds st = Some st' -> forall x, In x (snd st') -> In x (snd st) \/ Q x.
+  Proof.
+    induction ds as [|d ds IH]; intros Hadd st st' H x Hx; simpl in H.
+    - inversion H; subst. left. exact Hx.
+    - assert (Hadd' : forall d0 st0 st0', In d0 ds -> add1 d0 st0 = Some st0' ->
+                forall x0, In x0 (snd st0') -> In x0 (snd st0) \/ Q x0).
+      { intros d0 st0 st0' Hd0. apply Hadd. right. exact Hd0. }
+      destruct (mem d (fst st)); [apply (IH Hadd' st st' H x Hx)|].
+      destruct (add1 d st) as [st1|] eqn:E1; [|discriminate].
+      destruct (IH Hadd' st1 st' H x Hx) as [H1|H1]; [|right; exact H1].
+      apply (Hadd d st st1 (or_introl eq_refl) E1 x H1).
+  Qed.
+
+  Lemma add_closed fuel : forall c st st', Q c ->
+    add edges fuel c st = Some st' -> forall x, In x (snd st') -> In x (snd st) \/ Q x.
+  Proof.
+    induction fuel as [|f IH]; intros c st st' Hc H x Hx; [discriminate|].
+    rewrite add_S in H. destruct (mem c (fst st)).
+    - inversion H; subst. left. exact Hx.
+    - destruct (add_list (add edges f) (nth c edges []) (c :: fst st, snd st)) as [[added planned]|] eqn:El; [|discriminate].
+      inversion H; subst st'. simpl in Hx. apply in_app_or in Hx. destruct Hx as [Hx|[<-|[]]]; [|right; exact Hc].
+      apply (add_list_closed (add edges f) (nth c edges [])
+               (fun d st0 st0' Hd Hs => IH d st0 st0' (HQ c d Hc Hd) Hs) _ _ El x Hx).
+  Qed.
+End Respect.
+
+(** ** the edge map is complete when dependsOn has no 2-cycle (the inverse-edge test never fires) *)
+Lemma memp_cons p q h : memp p (q :: h) = ((fst p =? fst q) && (snd p =? snd q)) || memp p h.
+Proof. reflexivity. Qed.
+
+Section Complete.
+  Variable cs : list change.
+  Hypothesis Hno2 : forall p q cp cq, nth_error cs p = Some cp -> nth_error cs q = Some cq -> p <> q ->
+    dependsOn cp cq = true -> dependsOn cq cp = true -> False.
+
+  Definition hgood (hasE : list (nat * nat)) : Prop :=
+    forall p q, memp (p, q) hasE = true ->
+      exists cp cq, nth_error cs p = Some cp /\ nth_error cs q = Some cq /\ dependsOn cp cq = true.
+
+  Lemma edges_row_complete i c1 : nth_error cs i = Some c1 ->
+    forall js hasE row, (forall j c2, In (j, c2) js -> nth_error cs j = Some c2) -> hgood hasE ->
+      hgood (snd (edges_row i c1 js hasE row)) /\
+      incl row (fst (edges_row i c1 js hasE row)) /\
+      (forall j c2, In (j, c2) js -> i <> j -> dependsOn c1 c2 = true -> In j (fst (edges_row i c1 js hasE row))).
+  Proof.
+    intros Hi. induction js as [|[j c2] js IH]; intros hasE row Hjs Hg; simpl.
+    - split; [exact Hg|]. split; [intros x Hx; exact Hx|intros j c2 []].
+    - assert (Hjs' : forall j0 c0, In (j0, c0) js -> nth_error cs j0 = Some c0).
+      { intros j0 c0 H0. apply Hjs. right. exact H0. }
+      pose proof (Hjs j c2 (or_introl eq_refl)) as Hj.
+      destruct (negb (i =? j) && negb (memp (j, i) hasE) && dependsOn c1 c2) eqn:E.
+      + apply andb_true_iff in E. destruct E as [E Ed]. apply andb_true_iff in E. destruct E as [En _].
+        assert (Hg' : hgood ((i, j) :: hasE)).
+        { intros p q Hm. rewrite memp_cons in Hm. apply orb_true_iff in Hm. destruct Hm as [Hm|Hm]; [|apply Hg; exact Hm].
+          simpl in Hm. apply andb_true_iff in Hm. destruct Hm as [H1 H2].
+          apply Nat.eqb_eq in H1. apply Nat.eqb_eq in H2. subst. exists c1, c2. repeat split; assumption. }
+        destruct (IH ((i, j) :: hasE) (row ++ [j]) Hjs' Hg') as [G1 [G2 G3]].
+        split; [exact G1|]. split; [intros x Hx; apply G2; apply in_or_app; left; exact Hx|].
+        intros j0 c0 [H0|H0] Hne Hd; [|apply (G3 j0 c0 H0 Hne Hd)].
+        inversion H0; subst. apply G2. apply in_or_app. right. left. reflexivity.
+      + destruct (IH hasE row Hjs' Hg) as [G1 [G2 G3]].
+        split; [exact G1|]. split; [exact G2|].
+        intros j0 c0 [H0|H0] Hne Hd; [|apply (G3 j0 c0 H0 Hne Hd)].
+        inversion H0; subst. exfalso.
+        apply Nat.eqb_neq in Hne. rewrite Hne, Hd in E. simpl in E. rewrite andb_true_r in E.
+        apply negb_false_iff in E. destruct (Hg j0 i E) as [cp [cq [Hp [Hq Hdep]]]].
+        rewrite Hj in Hp. rewrite Hi in Hq. inversion Hp; inversion Hq; subst.
+        apply Nat.eqb_neq in Hne. apply (Hno2 i j0 cq cp Hi Hj Hne Hd Hdep).
+  Qed.
+
+  Lemma edges_rows_complete all : (forall j c2, In (j, c2) all -> nth_error cs j = Some c2) ->
+    forall is hasE, (forall i c1, In (i, c1) is -> nth_error cs i = Some c1) -> hgood hasE ->
+    forall m i c1, nth_error is m = Some (i, c1) ->
+    forall j c2, In (j, c2) all -> i <> j -> dependsOn c1 c2 = true -> In j (nth m (edges_rows is all hasE) []).
+  Proof.
+    intros Hall. induction is as [|[i0 c0] is IH]; intros hasE His Hg m i c1 Hm j c2 Hj Hne Hd.
+    - destruct m; discriminate.
+    - simpl. pose proof (His i0 c0 (or_introl eq_refl)) as Hi0.
+      destruct (edges_row_complete i0 c0 Hi0 all hasE [] Hall Hg) as [G1 [_ G3]].
+      destruct (edges_row i0 c0 all hasE []) as [row hasE'] eqn:E. simpl in *.
+      destruct m as [|m]; simpl in *.
+      + inversion Hm; subst. apply (G3 j c2 Hj Hne Hd).
+      + apply (IH hasE' (fun i1 c1' H1 => His i1 c1' (or_intror H1)) G1 m i c1 Hm j c2 Hj Hne Hd).
+  Qed.
+
+  Lemma build_edges_complete i j c1 c2 :
+    nth_error cs i = Some c1 -> nth_error cs j = Some c2 -> i <> j -> dependsOn c1 c2 = true ->
+    In j (nth i (build_edges cs) []).
+  Proof.
+    intros Hi Hj Hne Hd. unfold build_edges.
+    assert (Hall : forall j0 c0, In (j0, c0) (number 0 cs) -> nth_error cs j0 = Some c0).
+    { intros j0 c0 H0. apply number_in in H0. destruct H0 as [_ H0]. rewrite Nat.sub_0_r in H0. exact H0. }
+    apply (edges_rows_complete (number 0 cs) Hall (number 0 cs) [] Hall) with (i := i) (c1 := c1) (c2 := c2); try assumption.
+    - intros p q Hm. discriminate.
+    - rewrite number_nth, Hi. reflexivity.
+    - assert (Hn : nth_error (number 0 cs) j = Some (0 + j, c2)) by (rewrite number_nth, Hj; reflexivity).
+      apply nth_error_In in Hn. exact Hn.
+  Qed.
+End Complete.
+
+Lemma NoDup_split_unique {A} (p1 q1 p2 q2 : list A) x :
+  p1 ++ x :: q1 = p2 ++ x :: q2 -> NoDup (p1 ++ x :: q1) -> p1 = p2.
+Proof.
+  revert p2. induction p1 as [|a p1 IH]; intros p2 E Hn.
+  - destruct p2 as [|b p2]; [reflexivity|]. simpl in E. injection E as Eb Eq. subst b. exfalso.
+    simpl in Hn. inversion Hn as [|? ? Hx _]; subst. apply Hx. apply in_or_app. right. left. reflexivity.
+  - destruct p2 as [|b p2]; simpl in E; injection E as Eb Eq.
+    + subst a. exfalso. simpl in Hn. inversion Hn as [|? ? Hx _]; subst. apply Hx. apply in_or_app. right. left. reflexivity.
+    + subst b. f_equal. apply (IH p2 Eq). simpl in Hn. inversion Hn; assumption.
+Qed.
+
+Lemma pick_in cs i x : In x (pick cs i) -> nth_error cs i = Some x.
+Proof. unfold pick. destruct (nth_error cs i); [intros [<-|[]]; reflexivity|intros []]. Qed.
+
+(** ** the statement at the level of changes *)
+Definition before_all (out : list change) (P : change -> change -> Prop) : Prop :=
+  forall pre x post y, out = pre ++ x :: post -> P x y -> In y pre.
+
+Theorem SortChanges_ranked (r : change -> nat) l :
+  let cs := partition_changes l in
+  NoDup cs ->
+  (forall x y, In x cs -> In y cs -> x <> y -> dependsOn x y = true -> r y < r x) ->
+  exists out, SortChanges l = Some out /\ Permutation cs out /\
+    (* every dependency stands before its dependent *)
+    (forall pre x post y, out = pre ++ x :: post -> In y cs -> y <> x -> dependsOn x y = true -> In y pre) /\
+    (* when no non-drop depends on a drop, the drops stay behind all the other changes *)
+    ((forall x y, In x cs -> In y cs -> is_drop x = false -> x <> y -> dependsOn x y = true -> is_drop y = false) ->
+     forall pre x post y, out = pre ++ x :: post -> is_drop x = false -> In y pre -> is_drop y = false).
+Proof.
+  intros cs Hnd Hr. unfold SortChanges. fold cs. set (n := length cs). set (edges := build_edges cs).
+  set (rho := fun i => match nth_error cs i with Some c => r c | None => 0 end).
+  assert (Hneq : forall i j ci cj, nth_error cs i = Some ci -> nth_error cs j = Some cj -> i <> j -> ci <> cj).
+  { intros i j ci cj Hi Hj Hij E. subst cj. apply Hij.
+    apply (proj1 (NoDup_nth_error cs) Hnd i j); [apply nth_error_Some; rewrite Hi; discriminate|rewrite Hi, Hj; reflexivity]. }
+  assert (Hrho : forall i j, In j (nth i edges []) -> rho j < rho i).
+  { intros i j Hj. destruct (build_edges_in cs i j Hj) as [c1 [c2 [H1 [H2 [H3 H4]]]]].
+    unfold rho. rewrite H1, H2. apply Hr; [apply (nth_error_In _ _ H1)|apply (nth_error_In _ _ H2)| |exact H4].
+    apply (Hneq i j c1 c2 H1 H2 H3). }
+  assert (Hno2 : forall p q cp cq, nth_error cs p = Some cp -> nth_error cs q = Some cq -> p <> q ->
+            dependsOn cp cq = true -> dependsOn cq cp = true -> False).
+  { intros p q cp cq Hp Hq Hpq H1 H2.
+    pose proof (Hneq p q cp cq Hp Hq Hpq) as Hne.
+    pose proof (Hr cp cq (nth_error_In _ _ Hp) (nth_error_In _ _ Hq) Hne H1).
+    pose proof (Hr cq cp (nth_error_In _ _ Hq) (nth_error_In _ _ Hp) (fun E => Hne (eq_sym E)) H2). lia. }
+  (* the run: first the non-drops (positions < k), then the drops *)
+  set (k := length (filter (fun c => negb (is_drop c)) l)).
+  assert (Hk : k <= n).
+  { unfold n, cs, partition_changes. rewrite app_length. unfold k. lia. }
+  assert (Hpos : forall i c, nth_error cs i = Some c -> (i < k <-> is_drop c = false)).
+  { intros i c Hi. unfold cs, partition_changes in Hi. split; intros H.
+    - rewrite nth_error_app1 in Hi by exact H. apply nth_error_In in Hi. apply filter_In in Hi.
+      destruct Hi as [_ Hi]. apply negb_true_iff in Hi. exact Hi.
+    - destruct (Nat.lt_ge_cases i k) as [Hlt|Hge]; [exact Hlt|exfalso].
+      rewrite nth_error_app2 in Hi by exact Hge. apply nth_error_In in Hi. apply filter_In in Hi.
+      destruct Hi as [_ Hi]. congruence. }
+  assert (Hfuel : forall a, unmarked (seq 0 n) a < S n).
+  { intros a. pose proof (unmarked_le (seq 0 n) a). rewrite seq_length in *. lia. }
+  assert (Hadd : forall ds d st, In d ds -> d < n -> unmarked (seq 0 n) (fst st) < S n ->
+            ~ In d (fst st) -> apost n [d] st (add edges (S n) d st)).
+  { intros ds d st _ Hd Hq _. apply add_spec; try assumption.
+    - apply build_edges_length.
+    - intros i j Hj. apply (build_edges_lt cs i j Hj). }
+  replace (seq 0 n) with (seq 0 k ++ seq k (n - k)).
+  2:{ rewrite <- seq_app. f_equal. lia. }
+  rewrite add_list_app.
+  pose proof (add_list_spec n (add edges (S n)) (fun a => unmarked (seq 0 n) a < S n) (seq 0 k)
+                (fun a a' _ _ => Hfuel a') (Hadd (seq 0 k))
+                (fun d Hd => ltac:(apply in_seq in Hd; lia)) ([], []) (Hfuel [])) as S1.
+  destruct (add_list (add edges (S n)) (seq 0 k) ([], [])) as [[added1 planned1]|] eqn:E1; [|destruct S1].
+  destruct S1 as [new1 [A1 [A2 [A3 [A4 [A5 A6]]]]]]. simpl in A1, A3, A4, A5. subst planned1.
+  pose proof (add_list_spec n (add edges (S n)) (fun a => unmarked (seq 0 n) a < S n) (seq k (n - k))
+                (fun a a' _ _ => Hfuel a') (Hadd (seq k (n - k)))
+                (fun d Hd => ltac:(apply in_seq in Hd; lia)) (added1, new1) (Hfuel added1)) as S2.
+  destruct (add_list (add edges (S n)) (seq k (n - k)) (added1, new1)) as [[added2 planned2]|] eqn:E2; [|destruct S2].
+  destruct S2 as [new2 [B1 [B2 [B3 [B4 [B5 B6]]]]]]. simpl in B1, B3, B4, B5. subst planned2.
+  eexists. split; [reflexivity|].
+  (* the planned indices are a permutation of 0..n-1 *)
+  assert (Hnd12 : NoDup (new1 ++ new2)).
+  { apply NoDup_app_intro; try assumption. intros x H1 H2. apply (B3 x H2). apply A4. right. exact H1. }
+  assert (Hperm : Permutation (seq 0 n) (new1 ++ new2)).
+  { apply NoDup_Permutation; [apply seq_NoDup|exact Hnd12|]. intros x. split.
+    - intros Hx. apply in_seq in Hx. apply in_or_app.
+      destruct (Nat.lt_ge_cases x k) as [Hlt|Hge].
+      + left. assert (Hs : In x (seq 0 k)) by (apply in_seq; lia). apply A5 in Hs. apply A4 in Hs.
+        destruct Hs as [[]|Hs]. exact Hs.
+      + assert (Hs : In x (seq k (n - k))) by (apply in_seq; lia). apply B5 in Hs. apply B4 in Hs.
+        destruct Hs as [Hs|Hs]; [|right; exact Hs]. apply A4 in Hs. destruct Hs as [[]|Hs]. left. exact Hs.
+    - intros Hx. apply in_app_or in Hx. apply in_seq. destruct Hx as [Hx|Hx]; [pose proof (A6 x Hx)|pose proof (B6 x Hx)]; lia. }
+  split.
+  { pose proof (flat_map_pick_seq [] cs) as Hf. simpl in Hf. fold n in Hf. rewrite <- Hf at 1.
+    apply Permutation_flat_map. exact Hperm. }
+  (* the planned order respects the edges *)
+  assert (Hord : ordered edges (new1 ++ new2)).
+  { assert (Hall : add_list (add edges (S n)) (seq 0 k ++ seq k (n - k)) ([], []) = Some (added2, new1 ++ new2)).
+    { rewrite add_list_app, E1. exact E2. }
+    destruct (add_list_resp edges rho (add edges (S n)) (seq 0 k ++ seq k (n - k))
+                (fun d st st' _ Hs Hri => add_resp edges rho Hrho (S n) d st st' Hs Hri)
+                ([], []) (added2, new1 ++ new2) Hall) as [[P1 _] _]; simpl.
+    - intros p1 i p2 E. destruct p1; discriminate.
+    - intros x [].
+    - intros d y _ [].
+    - exact P1. }
+  split.
+  - intros pre x post y Eo Hy Hne Hd.
+    destruct (flat_map_split (pick cs) (new1 ++ new2) pre x post Eo) as [p1 [i [p2 [q1 [q2 [Ep [Ei [Epre _]]]]]]]].
+    assert (Hxi : nth_error cs i = Some x) by (apply pick_in; rewrite Ei; apply in_or_app; right; left; reflexivity).
+    destruct (In_nth_error cs y Hy) as [j Hj].
+    assert (Hij : i <> j) by (intros E; subst j; rewrite Hxi in Hj; inversion Hj; subst; apply Hne; reflexivity).
+    pose proof (build_edges_complete cs Hno2 i j x y Hxi Hj Hij Hd) as Hrow.
+    pose proof (Hord p1 i p2 Ep j Hrow) as Hjp.
+    rewrite Epre. apply in_or_app. left. apply in_flat_map. exists j. split; [exact Hjp|].
+    unfold pick. rewrite Hj. left. reflexivity.
+  - intros Hclosed pre x post y Eo Hx Hy.
+    destruct (flat_map_split (pick cs) (new1 ++ new2) pre x post Eo) as [p1 [i [p2 [q1 [q2 [Ep [Ei [Epre _]]]]]]]].
+    assert (Hxi : nth_error cs i = Some x) by (apply pick_in; rewrite Ei; apply in_or_app; right; left; reflexivity).
+    assert (Hq1 : q1 = []).
+    { unfold pick in Ei. rewrite Hxi in Ei. destruct q1 as [|a [|b q1]]; [reflexivity|discriminate|discriminate]. }
+    subst q1. rewrite app_nil_r in Epre.
+    assert (Hik : i < k) by (apply (Hpos i x Hxi); exact Hx).
+    (* the non-drop positions are a closed set: the first phase plans only such positions *)
+    assert (HQ : forall a b, a < k -> In b (nth a edges []) -> b < k).
+    { intros a b Ha Hb. destruct (build_edges_in cs a b Hb) as [c1 [c2 [H1 [H2 [H3 H4]]]]].
+      apply (Hpos b c2 H2). apply (Hclosed c1 c2 (nth_error_In _ _ H1) (nth_error_In _ _ H2)); [|apply (Hneq a b c1 c2 H1 H2 H3)|exact H4].
+      apply (Hpos a c1 H1). exact Ha. }
+    assert (Hnew1 : forall z, In z new1 -> z < k).
+    { intros z Hz.
+      assert (Hc : forall d st st', In d (seq 0 k) -> add edges (S n) d st = Some st' ->
+                forall x0, In x0 (snd st') -> In x0 (snd st) \/ x0 < k).
+      { intros d st st' Hd Hs. apply in_seq in Hd.
+        apply (add_closed edges (fun a => a < k) HQ (S n) d st st'); [lia|exact Hs]. }
+      destruct (add_list_closed (fun a => a < k) (add edges (S n)) (seq 0 k) Hc
+                  ([], []) (added1, new1) E1 z Hz) as [[]|H]. exact H. }
+    assert (Hnew2 : forall z, In z new2 -> k <= z).
+    { intros z Hz. destruct (Nat.lt_ge_cases z k) as [Hlt|Hge]; [exfalso|exact Hge].
+      apply (B3 z Hz). apply A5. apply in_seq. lia. }
+    assert (Hin1 : In i new1).
+    { assert (Hi12 : In i (new1 ++ new2)) by (rewrite Ep; apply in_or_app; right; left; reflexivity).
+      apply in_app_or in Hi12. destruct Hi12 as [H|H]; [exact H|]. pose proof (Hnew2 i H). lia. }
+    destruct (in_split _ _ Hin1) as [a [b Eab]].
+    assert (Ep1 : p1 = a).
+    { apply (NoDup_split_unique p1 p2 a (b ++ new2) i); [|rewrite <- Ep; exact Hnd12].
+      rewrite <- Ep, Eab, <- app_assoc. reflexivity. }
+    rewrite Epre in Hy. apply in_flat_map in Hy. destruct Hy as [j [Hj Hyj]].
+    apply pick_in in Hyj. apply (Hpos j y Hyj). apply Hnew1. rewrite Eab. apply in_or_app. left. rewrite <- Ep1. exact Hj.
 Qed.
